@@ -11,7 +11,7 @@ from fractions import Fraction
 from harness.common import core, sx, z3
 from harness.smc_loop import SCHEDULES, eq_terms, omegas, pop_w
 
-TERMINATING = {"fixed1", "fixed2", "fixed3", "adaptive_half", "adaptive_cap2"}
+TERMINATING = {"fixed1", "fixed2", "fixed4", "adaptive_half", "adaptive_cap2", "adaptive_cap3"}
 
 
 def _t(x):
